@@ -537,3 +537,22 @@ func WriteTrailer(t *protocol.Trailer, w network.Writer) error {
 	_, err := w.WriteBinary(t.Header())
 	return err
 }
+
+// HasCloseOption reports whether the value of a Connection header contains the
+// connection option "close". Connection options are a comma-separated list of
+// case-insensitive tokens (RFC 7230, section 6.1).
+func HasCloseOption(v []byte) bool {
+	for len(v) > 0 {
+		var tok []byte
+		if n := bytes.IndexByte(v, ','); n >= 0 {
+			tok, v = v[:n], v[n+1:]
+		} else {
+			tok, v = v, nil
+		}
+		tok = bytes.Trim(tok, " \t")
+		if utils.CaseInsensitiveCompare(tok, bytestr.StrClose) {
+			return true
+		}
+	}
+	return false
+}
